@@ -120,13 +120,15 @@ def dosBody : Nat → Bool → Nat → Bytes → BodyRes
 def wrapLen (acc : Nat) (c : Byte) : Nat :=
   (10 * acc + (c.toNat + 18446744073709551616 - 48 - (if c ≥ 128 then 256 else 0))) % 18446744073709551616
 
-/-- the inner length loop of the recipient list: returns (len, biglen afterwards) -/
+/-- the inner length loop of the recipient list: returns (len, biglen afterwards).  Whether it checks for digits
+    (`getlen` does) is read off the source by the translator: `qmtpRcptDigitCheck` is 0 for the code as shipped. -/
 def rcptLen (max : Nat) : Nat → Nat → Bytes → R (Nat × Nat)
   | 0, _, inp => .stop .badproto inp
   | _ + 1, _, [] => .stop .eof []
   | big + 1, acc, c :: rest =>
     if c = COLON then .ok (acc, big) rest
     else if acc > max then .stop .resources rest
+    else if Nq.Gen.C07.qmtpRcptDigitCheck = 1 ∧ (c < 48 ∨ c > 57) then .stop .badproto rest
     else rcptLen max big (wrapLen acc c) rest
 
 structure RL where
